@@ -42,7 +42,7 @@ GCtl(o, t) == /\ Live(o)
 GRun(o, n, v) == /\ Live(o)
                  /\ LET c == [op |-> "run", fmt |-> v, pos |-> PosOf(abs[o].hist), n |-> n]
                         k == FullKey(abs[o], c)
-                        ke == <<abs[o].settings, abs[o].ehist, [c EXCEPT !.fmt = "any"]>>
+                        ke == <<abs[o].settings, abs[o].base, abs[o].ehist, [c EXCEPT !.fmt = "any"]>>
                     IN /\ hits' = hits + (IF k \in keys \/ ke \in ekeys THEN 1 ELSE 0)
                        /\ keys' = keys \cup {k} /\ ekeys' = ekeys \cup {ke}
                        /\ abs' = [abs EXCEPT ![o] = [Call(@, c) EXCEPT !.ehist = Append(abs[o].ehist, [c EXCEPT !.fmt = "any"])]]
